@@ -8,7 +8,7 @@
    Statements only; proofs in Proofs/JoinDraw.v, Proofs/JoinRange.v. *)
 From EG Require Import Base.Prelude Model.Geometry Model.Style Model.Line Model.Thickline Model.Join Model.JoinTri.
 From EG Require Import Proofs.Join Proofs.JoinTri Proofs.JoinRange Proofs.JoinDraw Proofs.JoinTriDraw.
-From EG Require Proofs.Tristyled Proofs.Tribridge Proofs.JoinTriBridge Proofs.JoinTriFill.
+From EG Require Proofs.Tristyled Proofs.Tribridge Proofs.JoinTriBridge Proofs.JoinTriFill Proofs.JoinOutlineAny Proofs.JoinW1Fill Proofs.JoinW1All.
 Set Default Timeout 60.
 
 (* for every vertex list and width: hypothesis = the corners of the thick segments lie within +-2^29 (one-row
@@ -70,6 +70,36 @@ Theorem C01_join_triangle_pixels_draw_fill_like : forall t w al fill segs rs, tr
   jt_rows t w al (match fill with Some _ => true | None => false end) = Some rs ->
   exists px dr, jt_pixels t w al fill = Some px /\ jt_draw t w al fill = Some dr /\ flat_map rect_writes dr = px.
 Proof. exact Proofs.JoinTriFill.jt_pixels_draw_fill_like. Qed.
+
+(* jt_fused is also a THEOREM for the 1 px outline with every alignment (Center, Outside; Inside unless Triangle::is_collapsed
+   holds - that case is the fill-like one above): every row between the top and the bottom vertex meets one of the three
+   edge lines (Proofs/JoinOutlineAny.v). *)
+Theorem C01_join_triangle_fused_w1_any : forall t al rs, tri_big t -> Proofs.JoinOutlineAny.w1_outline_case t al ->
+  jt_rows t 1 al false = Some rs -> jt_fused rs = true.
+Proof. exact Proofs.JoinOutlineAny.jt_fused_w1_any. Qed.
+
+(* ... hence C01 (b) for the stroke-only triangle of width 1, input-only: vertices within +-V, V + 14 <= 8191 *)
+Theorem C01_join_triangle_pixels_draw_w1_any : forall V t al, range_ok V 1 -> tri_within V t ->
+  Proofs.JoinOutlineAny.w1_outline_case t al ->
+  exists px dr, jt_pixels t 1 al None = Some px /\ jt_draw t 1 al None = Some dr /\ flat_map rect_writes dr = px.
+Proof. exact Proofs.JoinOutlineAny.jt_pixels_draw_w1_any. Qed.
+
+(* ... and for a stroke of width 1 TOGETHER WITH a fill colour (Proofs/JoinW1Fill.v): every row holds the stroke scanlines of the
+   three edge lines, preceded by the fill line between them, so no row is empty *)
+Theorem C01_join_triangle_fused_w1_fill : forall t al rs, tri_big t -> Proofs.JoinOutlineAny.w1_outline_case t al ->
+  jt_rows t 1 al true = Some rs -> jt_fused rs = true.
+Proof. exact Proofs.JoinW1Fill.jt_fused_w1_fill. Qed.
+
+Theorem C01_join_triangle_pixels_draw_w1_fill : forall V t al f, range_ok V 1 -> tri_within V t ->
+  Proofs.JoinOutlineAny.w1_outline_case t al ->
+  exists px dr, jt_pixels t 1 al (Some f) = Some px /\ jt_draw t 1 al (Some f) = Some dr /\ flat_map rect_writes dr = px.
+Proof. exact Proofs.JoinW1Fill.jt_pixels_draw_w1_fill. Qed.
+
+(* ... and, with Triangle::is_collapsed decided for width 1 (C19_join_is_collapsed_w1: collapsed <-> no area), C01 (b) for EVERY
+   triangle with a stroke of width 1, every alignment, with or without a fill colour, input-only (Proofs/JoinW1All.v) *)
+Theorem C01_join_triangle_pixels_draw_w1_all : forall V t al fill, range_ok V 1 -> tri_within V t ->
+  exists px dr, jt_pixels t 1 al fill = Some px /\ jt_draw t 1 al fill = Some dr /\ flat_map rect_writes dr = px.
+Proof. exact Proofs.JoinW1All.jt_pixels_draw_w1_all. Qed.
 
 (* the computable hypothesis of the tri builder's C01_bridge_tri_stroked_pixels_draw_partial (the same consumers, modelled
    in Model/Tristyled.v) is this file's jt_fused: the two statements have the same reach *)
